@@ -689,6 +689,9 @@ func (g *Gen) callEffects(c *ssa.Call, li *loopInfo, cells map[*ssa.Alloc]bool, 
 		if _, ok := c.Call.Value.(*ssa.Builtin); ok {
 			return g.builtinEffects(c, li, cells, written)
 		}
+		if f := c.Common().StaticCallee(); f != nil && g.canInline(f) {
+			return g.inlineEffects(f, li, cells, 0)
+		}
 		return nil // reported when the call itself is executed
 	}
 	root := func(name string) (modRoot, bool) {
@@ -813,6 +816,10 @@ func (g *Gen) call(x *ssa.Call) {
 	}
 	con, names, argVals := g.calleeContract(x)
 	if con == nil {
+		if f := cc.StaticCallee(); f != nil && g.canInline(f) {
+			g.inlineCall(x, f)
+			return
+		}
 		name := "?"
 		if cc.IsInvoke() {
 			name = "(" + cc.Value.Type().String() + ")." + cc.Method.Name()
@@ -1122,4 +1129,166 @@ func (g *Gen) builtinAppend(x *ssa.Call) {
 		ite(inPlace, s.C[3], ncap),
 	}}
 	g.setVal(x, res)
+}
+
+// ---------- inlining of small contract-less callees ----------
+
+// A callee in this module that has no contract is verified in place (its body is executed symbolically at the
+// call site), so that extracting a helper neither hides a change from the check nor raises a false alarm.
+func (g *Gen) canInline(f *ssa.Function) bool {
+	if f == nil || len(f.Blocks) == 0 || f.Pkg == nil || !strings.HasPrefix(f.Pkg.Pkg.Path(), modPath) {
+		return false
+	}
+	if len(f.FreeVars) > 0 {
+		return false
+	}
+	return true
+}
+
+func (g *Gen) inlineEffects(f *ssa.Function, li *loopInfo, cells map[*ssa.Alloc]bool, depth int) []Effect {
+	var out []Effect
+	if depth > 4 {
+		return out
+	}
+	for _, b := range f.Blocks {
+		for _, ins := range b.Instrs {
+			switch x := ins.(type) {
+			case *ssa.Store:
+				if g.rootLocal(x.Addr) != nil {
+					continue
+				}
+				for _, e := range g.storeEffects(x.Addr, li, cells, nil) {
+					e.Target = nil
+					out = append(out, e)
+				}
+			case *ssa.Call:
+				for _, e := range g.callEffects(x, li, cells, nil) {
+					e.Target = nil
+					out = append(out, e)
+				}
+			}
+		}
+	}
+	return out
+}
+
+type inlineRet struct {
+	cond Term
+	st   *State
+	vals []Val
+}
+
+func (g *Gen) inlineCall(x *ssa.Call, f *ssa.Function) {
+	for _, s := range g.inlineStack {
+		if s == f {
+			oos("recursive call to %s which has no contract", shortKey(f.String()))
+		}
+	}
+	if len(g.inlineStack) >= 4 {
+		oos("call to %s which has no contract (inlining depth exceeded)", shortKey(f.String()))
+	}
+	// bind parameters
+	args := x.Call.Args
+	if len(args) != len(f.Params) {
+		oos("inline %s: argument count mismatch", shortKey(f.String()))
+	}
+	for i, p := range f.Params {
+		if sv, ok := g.env[args[i]]; ok && sv.A != nil && !(sv.A.K == aHeap && sv.A.Path == "" && len(sv.A.AIdx) == 0) {
+			// interior/local address passed by pointer: keep the address itself
+			g.env[p] = &SV{A: sv.A}
+			continue
+		}
+		g.env[p] = &SV{V: g.val(args[i])}
+	}
+	// save caller context
+	savedFn, savedLoops, savedDef, savedPos, savedRets := g.fn, g.loops, g.deferred, g.curPos, g.inlineRets
+	g.inlineStack = append(g.inlineStack, f)
+	g.fn = f
+	g.deferred = nil
+	g.inlineRets = nil
+	defer func() {
+		g.fn, g.loops, g.deferred, g.curPos, g.inlineRets = savedFn, savedLoops, savedDef, savedPos, savedRets
+		g.inlineStack = g.inlineStack[:len(g.inlineStack)-1]
+	}()
+	g.findLoopsNoSpec()
+	if len(g.loops) > 0 {
+		oos("call to %s which has no contract and contains a loop", shortKey(f.String()))
+	}
+	startReach, startSt := g.reach, g.st
+	order := g.topo()
+	in := map[*ssa.BasicBlock][]edge{}
+	for _, b := range order {
+		if b == f.Blocks[0] {
+			g.st, g.reach = startSt, startReach
+		} else {
+			es := in[b]
+			if len(es) == 0 {
+				continue
+			}
+			g.st, g.reach = g.merge(b, es)
+		}
+		for _, ins := range b.Instrs {
+			if p := ins.Pos(); p.IsValid() {
+				g.curPos = p
+			}
+			g.instr(ins, b, in)
+		}
+	}
+	rets := g.inlineRets
+	if len(rets) == 0 {
+		// the callee never returns (always panics): the continuation is unreachable
+		g.reach = tBool(false)
+		g.st = startSt
+		g.env[x] = &SV{V: g.zeroValOrTuple(x.Type())}
+		return
+	}
+	var es []edge
+	for _, r := range rets {
+		es = append(es, edge{cond: r.cond, st: r.st})
+	}
+	st, reach := g.merge(f.Blocks[0], es)
+	// result values
+	var res Val
+	if x.Type() != nil {
+		res = Val{T: x.Type()}
+		n := 0
+		for _, v := range rets[0].vals {
+			n += len(v.C)
+		}
+		for i := 0; i < n; i++ {
+			var ts []Term
+			same := true
+			for _, r := range rets {
+				var flat []Term
+				for _, v := range r.vals {
+					flat = append(flat, v.C...)
+				}
+				ts = append(ts, flat[i])
+				if flat[i].S != ts[0].S {
+					same = false
+				}
+			}
+			if same {
+				res.C = append(res.C, ts[0])
+				continue
+			}
+			m := g.fresh("inl", ts[0].Sort)
+			for k, r := range rets {
+				g.assume(implies(r.cond, eq(m, ts[k])))
+			}
+			res.C = append(res.C, m)
+		}
+	}
+	g.st, g.reach = st, reach
+	g.env[x] = &SV{V: res}
+}
+
+func (g *Gen) zeroValOrTuple(t types.Type) Val {
+	if t == nil {
+		return Val{}
+	}
+	if tup, ok := t.(*types.Tuple); ok && tup.Len() == 0 {
+		return Val{T: t}
+	}
+	return g.zeroVal(t)
 }
